@@ -20,7 +20,7 @@ PROPS = {
              "carries constraints or there are >=2 answers; distinct = distinct case lines",
         trusted=SEARCH_TRUST,
         assumptions=["the oracle decides existence of hidden-variable values with an independent Robinson unifier (disequalities over an infinite universe)"],
-        open=["C02_program_exact lifts the state invariant through conde/fresh on the engine (delivered states describe exactly the program's solutions); the last step — reification/purification of a delivered state into the reported answer term and constraints (C03 proves its shape) preserves the ground instances — is carried by the correspondence and the oracle, not yet by a theorem"],
+        open=["C02_answer_instances is about the SEMANTIC answer (walked query terms + the stored disequalities over their variables); that the reported answer (reifyFinal / purified / normalizedCs / walkCst) equals it up to the renaming to `_` variables and the removal of subsumed constraints is carried by C03 (shape) and the correspondence, not by a theorem"],
     ),
     "C05": dict(
         title="depth-first search order",
